@@ -32,6 +32,7 @@ def planar3DCodeQuery (Lx Ly Lz : Nat) : List String → Option String
   | ["deform", name, axis, c] =>
     some (match Planar3DCode.getDeformation name (if axis == "-" then none else some axis) (parseCoord c) with
       | none => "ERR value" | some m => planar3DCodeShowMap m)
+  | ["rankfamily"] => some (planar3DCodeShowCoords (Planar3DCode.rankFamily Lx Ly Lz))
   | ["n"] => some (toString (Planar3DCode.lattice Lx Ly Lz).qubits.length)
   | ["k"] => some (toString (Planar3DCode.lattice Lx Ly Lz).logX.length)
   | _ => none
